@@ -76,12 +76,48 @@ def twin_schema(schema):
     return {"types": types_, "enums": enums}
 
 
+def card_twin_schema(schema):
+    """same names, numbers and kinds, but singular <-> repeated flipped for the plain scalar fields: a decision the library
+    remembers per (field metadata, wire type) must not leak between classes either"""
+    types_ = {}
+    for ty, fields in schema["types"].items():
+        out = []
+        for f in fields:
+            g = dict(f)
+            if f["kind"] in _TWIN_KIND and f["kind"] != "enum":
+                if f["card"] == "implicit":
+                    g["card"] = "repeated"
+                elif f["card"] == "repeated":
+                    g["card"] = "implicit"
+            out.append(g)
+        types_[ty] = out
+    return {"types": types_, "enums": schema.get("enums", {})}
+
+
+def _occurrences(num):
+    def tag(wt):
+        v, out = (num << 3) | wt, []
+        while True:
+            out.append((v & 0x7F) | (0x80 if v > 0x7F else 0))
+            v >>= 7
+            if not v:
+                return bytes(out)
+    return [tag(0) + b"\x03", tag(1) + bytes(8), tag(5) + bytes(4), tag(2) + b"\x02\x08\x04", tag(2) + b"\x00"]
+
+
 def prime(classes, schema):
-    """use every class once (metadata, map entry classes, defaults are created lazily on first use)"""
+    """use every class once (metadata, map entry classes, defaults are created lazily on first use), and let it see every
+    field number with every wire type (fitting or not)"""
     for ty, fields in schema["types"].items():
         cls = classes[ty]
         m = cls()
         bytes(m), m.to_dict()
+        for f in fields:
+            for occ in _occurrences(f["num"]):
+                try:
+                    bytes(cls().parse(occ))
+                except Exception:
+                    pass
         for f in fields:
             try:
                 v = getattr(m, py(f))
@@ -98,8 +134,8 @@ def prime(classes, schema):
 
 def make_bp(schema, modname=None, twin=True):
     if twin:
-        ts = twin_schema(schema)
-        prime(make_bp(ts, twin=False), ts)
+        for ts in (twin_schema(schema), card_twin_schema(schema)):
+            prime(make_bp(ts, twin=False), ts)
     modname = modname or "verif_dyn_%d" % next(_counter)
     mod = types.ModuleType(modname)
     sys.modules[modname] = mod
@@ -190,6 +226,8 @@ def conc_bp_single(schema, C, f, kind, a):
     if k == "bytes":
         return bytes(a["b"])
     if k == "msg":
+        if a.get("fresh"):
+            return C[f["msg"]]()       # a newly constructed, never assigned message object (only used where that counts as present)
         # every non-unset member (defaults included) is passed to the constructor, which marks the message present
         return conc_bp(schema, C, f["msg"], a["m"])
     if k == "ts":
